@@ -91,3 +91,50 @@ Proof.
   repeat match goal with |- context [String.eqb s ?l] => destruct (String.eqb_spec s l); [subst; reflexivity|] end.
   reflexivity.
 Qed.
+
+(* ---------------------------------------------------------------- go/ast shapes -> the textual classes of Model/Classify.v *)
+Import Classify.
+Definition pty_of (e : ast_expr) : pty :=
+  match e with
+  | AIdent n => if String.eqb n "string" then TString else if String.eqb n "int" then TInt
+                else if String.eqb n "bool" then TBool else TOther n
+  | ASelector (AIdent p) s =>
+      if String.eqb p "time" && String.eqb s "Duration" then TDur
+      else if String.eqb p "context" && String.eqb s "Context" then TCtx else TOther (p ++ "." ++ s)
+  | _ => TOther ""
+  end.
+Definition pgroup_of (f : ast_field) : pgroup := {| pnames := fld_names f; pty_ := pty_of (fld_type f) |}.
+(* a result is "textually error" when fmt.Sprint of its type is "error" (sprint: what fmt.Sprint prints for a node) *)
+Definition rgroup_of (sprint : ast_expr -> string) (f : ast_field) : rgroup :=
+  {| rnames := length (fld_names f); rkind_ := if String.eqb (sprint (fld_type f)) "error" then RKError else RKOther |}.
+(* a (value, error) result of the code against an option of the model: same value, error exactly where the model has None *)
+Definition agrees (r : bool * option string) (m : option bool) : Prop :=
+  match m with Some b => r = (b, None) | None => fst r = false /\ snd r <> None end.
+
+Lemma num_fields_cons : forall g l, num_fields (g :: l) = Nat.max 1 (length (pnames g)) + num_fields l.
+Proof. reflexivity. Qed.
+Lemma num_fields_r_cons : forall g l, num_fields_r (g :: l) = Nat.max 1 (rnames g) + num_fields_r l.
+Proof. reflexivity. Qed.
+Lemma NumFields_params : forall l, fieldlist_NumFields (Some l) = Z.of_nat (num_fields (map pgroup_of l)).
+Proof.
+  unfold fieldlist_NumFields. cbn [fieldlist_List]. induction l as [|f l IH]; [reflexivity|].
+  cbn [fold_right map]. rewrite IH, num_fields_cons. cbn [pgroup_of pnames]. unfold len_. lia.
+Qed.
+Lemma NumFields_results : forall sp l, fieldlist_NumFields (Some l) = Z.of_nat (num_fields_r (map (rgroup_of sp) l)).
+Proof.
+  unfold fieldlist_NumFields. cbn [fieldlist_List]. induction l as [|f l IH]; [reflexivity|].
+  cbn [fold_right map]. rewrite IH, num_fields_r_cons. cbn [rgroup_of rnames]. unfold len_. lia.
+Qed.
+
+(* hasErrorReturn asks of a result kind only whether it is RKError: RKLocal (go/doc's factory rule) and RKOther are alike *)
+Definition same_for_error (a b : rgroup) : Prop :=
+  rnames a = rnames b /\ (rkind_ a = RKError <-> rkind_ b = RKError).
+Lemma hasErrorReturn_kinds : forall rs rs', Forall2 same_for_error rs rs' -> hasErrorReturn rs = hasErrorReturn rs'.
+Proof.
+  intros rs rs' F.
+  assert (N : num_fields_r rs = num_fields_r rs').
+  { induction F as [|a b l l' [Hn _] _ IH]; [reflexivity|]. rewrite !num_fields_r_cons, Hn, IH. reflexivity. }
+  unfold hasErrorReturn. rewrite N. destruct F as [|a b l l' [Hn Hk] _]; [reflexivity|]. rewrite Hn.
+  destruct (rkind_ a) eqn:Ea, (rkind_ b) eqn:Eb; try reflexivity;
+    (destruct Hk as [H1 H2]; try (specialize (H1 eq_refl); discriminate); try (specialize (H2 eq_refl); discriminate)).
+Qed.
